@@ -281,6 +281,9 @@ def structure_items(repo):
                               and shape.before(sfi, "file_obj.strip_comment(line)", "NAME_REGEX.finditer(line)"),
         "ensures.skip_pp_lines": any(isinstance(n, ast.If) and ast.unparse(n.test) == "line == '' or line[0] == '#'"
                                      and isinstance(n.body[0], ast.Continue) for n in ast.walk(fi.node)),
+        # the scan is repeated unless it met no new linked object (whatever kind of entity the request is on)
+        "ensures.rescan_when_links_found": shape.has(sfi, "n_linked = len(override_cache)")
+                                           and shape.has(sfi, "if len(override_cache) == n_linked:\n    break"),
     }
     for k, ok in checks.items():
         items.append(Item(f"C06/get_all_references/{k}", "proved" if ok else "refuted", "structural", 0.0,
@@ -288,7 +291,9 @@ def structure_items(repo):
                           detail={"ensures.width": "each reference is [line index, start(1), end(1)] of the name group",
                                   "ensures.same_line": "hits are re-resolved at the hit's own line and column",
                                   "ensures.no_comment": "the regex runs on the comment-stripped line",
-                                  "ensures.skip_pp_lines": "empty and preprocessor lines contribute nothing"}[k],
+                                  "ensures.skip_pp_lines": "empty and preprocessor lines contribute nothing",
+                                  "ensures.rescan_when_links_found": "the workspace scan ends only after a pass that added no linked "
+                                                                     "object (uses scanned before the link was met are found by the next pass)"}[k],
                           witness=None if ok else {"clause": k}))
     fr = repo.func(f"{LS}.serve_references")
     ok = "uri_json(path_to_uri(filename), ref[0], ref[1], ref[0], ref[2])" in ast.unparse(fr.node)
@@ -399,11 +404,19 @@ MULTI = {
         "f.f": "      program q\n      integer ix\n      ix = 1   ! ix here\n      print *, 'ix', ix\n      end program q\n",
         "m.f90": "module m\n  interface\n    subroutine ext(n)\n      integer :: n\n    end subroutine ext\n  end interface\ncontains\n"
                  "  subroutine s()\n    integer :: y\n    call ext(y)\n  end subroutine s\nend module m\n",
-        "u.f90": "program u\n  use m\n  integer :: k\n  call ext(k)\nend program u\n"},
+        "u.f90": "program u\n  use m\n  integer :: k\n  call ext(k)\nend program u\n",
+        # a binding declared without `=>` (binding and implementation share the name), used through an object in files
+        # that are scanned before and after the one with the type
+        "b_first.f90": "subroutine b_first()\n  use shp\n  type(circle) :: c\n  call c%area()\n  call area(c)\nend subroutine b_first\n",
+        "shp.f90": "module shp\n  type :: circle\n    real :: r\n  contains\n    procedure :: area\n  end type circle\ncontains\n"
+                   "  subroutine area(self)\n    class(circle), intent(inout) :: self\n    self%r = 1.0\n  end subroutine area\nend module shp\n",
+        "z_last.f90": "subroutine z_last()\n  use shp\n  type(circle) :: c\n  call c%area()\nend subroutine z_last\n"},
     "expect": {
         "x": [("a.f90", 1, 13), ("a.f90", 2, 2), ("a.f90", 3, 18), ("a.f90", 4, 19), ("a.f90", 5, 11), ("a.f90", 6, 22)],
         "ix": [("f.f", 1, 14), ("f.f", 2, 6), ("f.f", 3, 21)],
-        "ext": [("m.f90", 2, 15), ("m.f90", 4, 19), ("m.f90", 9, 9), ("u.f90", 3, 7)]},
+        "ext": [("m.f90", 2, 15), ("m.f90", 4, 19), ("m.f90", 9, 9), ("u.f90", 3, 7)],
+        "area": [("b_first.f90", 3, 9), ("b_first.f90", 4, 7), ("shp.f90", 4, 17), ("shp.f90", 7, 13), ("shp.f90", 10, 17),
+                 ("z_last.f90", 3, 9)]},
 }
 
 
@@ -588,7 +601,7 @@ def extra(repo, reg, tier, seed):
     w = native_references_multi()
     items.append(Item("C06/session/native_references_literals_and_files", "refuted" if w else "bounded-ok", "native-run(bounded)", 0.0,
                       mode="bounded", witness=w, confirmed=True if w else None, func=f"{LS}.get_all_references",
-                      detail="bounded: 4 files ('!' and quotes of the other kind inside character literals, trailing comments in "
+                      detail="bounded: 7 files (a type-bound procedure that shares its implementation's name, used in files scanned before and after the type; '!' and quotes of the other kind inside character literals, trailing comments in "
                              "free and fixed form, a procedure declared in an interface block of a module and used in another "
                              "file): references from every occurrence vs the expected occurrence set"))
     from contracts import c05_gen
